@@ -265,6 +265,23 @@ func (r *atRun) runEpisode(idx int, ep *ATEpisode) *episodeObs {
 		r.res.InvalidPlan = err.Error()
 		return nil
 	}
+	// an earlier episode may have cost the session (coordinator closed it):
+	// reconnect like getty's client does, and wait until the client has
+	// announced itself and its resources again
+	anyOpen := false
+	for _, ss := range w.Net.Sessions() {
+		if !ss.IsClosed() {
+			anyOpen = true
+		}
+	}
+	if !anyOpen {
+		ns := w.Net.Open(TCAddr)
+		t0 := sim.Now()
+		sim.Run(func() bool {
+			return sim.Now()-t0 > 60*time.Second || (tc.SessionIsTM(int(ns.ID())) && len(tc.SessionResources(int(ns.ID()))) > 0 && sim.Enabled() == 0)
+		})
+		sim.Probe("at-session-reopened")
+	}
 	o.s0 = w.Srv.Snapshot()
 	o.jstart = w.Srv.JournalLen()
 	o.logStart = len(tc.Log)
@@ -272,7 +289,11 @@ func (r *atRun) runEpisode(idx int, ep *ATEpisode) *episodeObs {
 	w.Hook.Reset(ep.DBFaults)
 	tc.Rules = nil
 	for _, rule := range ep.TCRules {
-		rule.Nth += tc.CountOf(rule.Code)
+		if rule.Status != 0 {
+			rule = tc.ArmStatusRule(rule)
+		} else {
+			rule.Nth += tc.CountOf(rule.Code)
+		}
 		tc.Rules = append(tc.Rules, rule)
 	}
 	sim.Go("at-business", func() {
@@ -331,6 +352,10 @@ func (r *atRun) runEpisode(idx int, ep *ATEpisode) *episodeObs {
 		return sim.Enabled() == 0 && tc.PendingP2() == 0 && sim.Now()-t1 > 5*time.Second
 	})
 	o.final = w.Srv.Snapshot()
+	if o.xid == "" {
+		// the global transaction never began: whatever the episode meant to exercise did not happen
+		sim.Probe("episode-without-global-transaction")
+	}
 	if ep.Redeliver > 0 && o.done {
 		r.redeliver(o, ep.Redeliver)
 	}
